@@ -58,7 +58,9 @@ def run_uncached(repo, wanted, reg):
     out = {'harnesses': [], 'wall_s': 0, 'cmd': ''}
     try:
         shutil.copytree(os.path.join(repo, 'src'), os.path.join(d, 'src'))
-        shutil.copy(os.path.join(repo, 'Cargo.lock'), os.path.join(d, 'Cargo.lock'))
+        # Cargo.lock is git-ignored in /repo: a fresh checkout / worktree has none, fall back to the committed copy
+        lock = os.path.join(repo, 'Cargo.lock')
+        shutil.copy(lock if os.path.exists(lock) else os.path.join(KDIR, 'Cargo.lock'), os.path.join(d, 'Cargo.lock'))
         ct = open(os.path.join(repo, 'Cargo.toml')).read()
         ct = re.sub(r'\[\[bench\]\][^\[]*', '', ct)
         ct = re.sub(r'\[dev-dependencies\][^\[]*', '', ct)
